@@ -319,6 +319,13 @@ func (vc *VC) invoke(fr *Frame, st *State, recv Val, c *ssa.CallCommon, args []V
 	if m.Name() == "Error" || m.Name() == "String" {
 		return intrFreshString(vc, fr, st, nil, c, pos)
 	}
+	if vc.eng.isStoreMethod(c) {
+		vc.eng.usedTrusted["storage engine method "+key+" does not modify the program heap"] = true
+		nn := vc.sc.fresh("next", sortRef)
+		vc.sc.assert(sx(">=", nn, st.next))
+		st.next = nn
+		return vc.havocResults(st, m.Type().(*types.Signature))
+	}
 	vc.note("%s: interface call %s havocs heap", funcKey(fr.fn), key)
 	vc.havocAllHeap(st)
 	return vc.havocResults(st, m.Type().(*types.Signature))
@@ -426,6 +433,9 @@ func (vc *VC) applyContract(fr *Frame, st *State, callee *ssa.Function, con *Con
 		vc.assume(st, vc.wf(st, r))
 	}
 	post := vc.contractEnv(callee, args, st, pre, results)
+	if vc.safetyOff {
+		return packResults(callee.Signature, results)
+	}
 	for _, e := range con.Ensures {
 		t := post.evalBool(e.Expr)
 		if post.err != nil {
@@ -500,6 +510,17 @@ func (vc *VC) havocModifies(st *State, env *Env, callee *ssa.Function, m string)
 			return
 		}
 		v := arrayAsSlice(env.eval(e))
+		if v.K == KRef && v.T != nil {
+			if mt, ok := v.T.Underlying().(*types.Map); ok {
+				// contents of one map
+				for hn, hs := range vc.mapHeaps(mt) {
+					h := vc.heapGet(st, hn, hs)
+					_, args, _ := splitArgs(hs)
+					vc.heapSet(st, hn, hs, vc.sc.define("h", hs, store(h, v.S, vc.sc.fresh("mod", args[1]))))
+				}
+				return
+			}
+		}
 		if v.K != KSlice {
 			vc.unsupported("modifies %q: not a slice", m)
 			vc.havocAllHeap(st)
